@@ -177,16 +177,20 @@ pub enum Domain {
     HugeScalar,
 }
 
-pub const N_REGIMES: usize = 12;
-pub const REGIME_NAMES: [&str; N_REGIMES] = ["walk", "trend", "alternate", "spikes", "plateaus", "sawtooth", "nearflat", "gridties", "widemag", "tinyzero", "geometric", "ulpflat"];
+pub const N_REGIMES: usize = 13;
+pub const REGIME_NAMES: [&str; N_REGIMES] = ["walk", "trend", "alternate", "spikes", "plateaus", "sawtooth", "nearflat", "gridties", "widemag", "tinyzero", "geometric", "ulpflat", "trendshock"];
 
 /// Expand (regime, base, aux, noise) into a value stream. Pure function.
 pub fn expand(domain: Domain, regime: usize, base: f64, aux: f64, noise: &[f64]) -> Vec<f64> {
     let n = noise.len();
     let mut out = Vec::with_capacity(n);
     let mut x = base * (1.0 + aux);
-    let saw_p = 2 + (aux * 9.0) as usize;
+    // saw-tooth period: short (2..=10), or for the upper part of aux long (12..~400) and triangular (V-shaped legs
+    // longer than most windows: a turn followed by a long one-directional run)
+    let saw_p = if aux < 0.6 { 2 + (aux * 15.0) as usize } else { 12 + ((aux - 0.6) * 1000.0) as usize };
     let mut geo_down = true;
+    let mut ts_dir = if aux < 0.5 { -1.0 } else { 1.0 };
+    let mut ts_bounce = 0usize;
     for (i, &u) in noise.iter().enumerate() {
         let v = match regime {
             0 => {
@@ -220,7 +224,11 @@ pub fn expand(domain: Domain, regime: usize, base: f64, aux: f64, noise: &[f64])
                 }
                 x
             }
-            5 => base * (1.0 + (i % saw_p) as f64 * 0.25),
+            5 => {
+                let ph = i % saw_p;
+                let k = if saw_p >= 12 && (i / saw_p) % 2 == 1 { saw_p - ph } else { ph };
+                base * (1.0 + k as f64 * if saw_p >= 12 { 0.01 } else { 0.25 })
+            }
             // nearly flat: eight levels k*d around the base, d = 2^-20 .. 2^-51 relative (chosen per stream): relative
             // thresholds of any size hidden in a "constant window" test sit between two of these
             6 => base * (1.0 + ((u * 8.0).floor() - 3.0) * 2f64.powi(-20 - (aux * 32.0) as i32)),
@@ -232,6 +240,29 @@ pub fn expand(domain: Domain, regime: usize, base: f64, aux: f64, noise: &[f64])
             11 => {
                 // a window that is almost flat at ulp resolution: base + k ulps, k in 0..8
                 f64::from_bits((base * (1.0 + aux)).to_bits() + (u * 8.0) as u64)
+            }
+            12 => {
+                // a steady one-directional drift (dozens to hundreds of strictly monotone steps) interrupted by a
+                // shock further in the same direction and a partial retrace over the next few steps; the drift
+                // turns around when it leaves [base/40, 40 base]
+                if i == 0 {
+                    x = base * (1.0 + aux);
+                }
+                if ts_bounce > 0 {
+                    ts_bounce -= 1;
+                    x *= 1.0 - ts_dir * 0.07 * (0.2 + u);
+                } else if u > 0.975 {
+                    x *= 1.0 + ts_dir * 0.3;
+                    ts_bounce = 2 + (u * 1000.0) as usize % 3;
+                } else {
+                    x *= 1.0 + ts_dir * 0.003 * (0.25 + u);
+                }
+                if x > base * 40.0 {
+                    ts_dir = -1.0;
+                } else if x < base / 40.0 {
+                    ts_dir = 1.0;
+                }
+                x
             }
             10 => {
                 // smooth multi-decade sell-off (then rally): every step moves 2 % .. 30 % in one direction,
